@@ -94,12 +94,9 @@ Proof.
   destruct (v3_eqb p q) eqn:E.
   - apply v3_eqb_eq in E. subst. split; [discriminate | intros H; exfalso; apply H; left; reflexivity].
   - apply v3_eqb_neq in E. destruct (find_idx p r); cbn [option_map].
-    + split; [discriminate|]. intros H. exfalso. apply H. right. apply Decidable.not_not; [|apply IH].
-      * destruct (in_dec (fun a b => match v3_eqb a b as c return v3_eqb a b = c -> {a = b} + {a <> b} with
-                                     | true => fun e => left (proj1 (v3_eqb_eq a b) e)
-                                     | false => fun e => right (proj1 (v3_eqb_neq a b) e) end eq_refl) p r);
-          [left|right]; assumption.
-      * intros H'. discriminate (proj2 IH H').
+    + split; [discriminate|]. intros H. exfalso.
+      assert (Hn : ~ In p r) by (intros H'; apply H; right; exact H').
+      discriminate (proj2 IH Hn).
     + split; [|reflexivity]. intros _ [H|H]; [congruence | apply (proj1 IH eq_refl H)].
 Qed.
 
@@ -185,9 +182,9 @@ Section Sound.
     destruct (find_idx (im g) (map fst acc)) as [i|] eqn:Ei; cbn [option_map].
     - destruct (insert_hit (im g) g acc i Ei) as [H1 H2].
       constructor; cbn [s_pos s_dict s_heap].
-      + rewrite H1. reflexivity.
-      + rewrite H2, Hh. reflexivity.
-      + rewrite H1. reflexivity.
+      + exact (eq_sym H1).
+      + rewrite Hh. exact (eq_sym H2).
+      + reflexivity.
     - assert (Hnot : ~ In (im g) (map fst acc)) by (apply find_idx_none; exact Ei).
       assert (Hmerged :
         match map fst acc with
@@ -210,8 +207,7 @@ Section Sound.
       rewrite Hmerged. rewrite (insert_miss (im g) g acc Ei).
       constructor; cbn [s_pos s_dict s_heap].
       + rewrite map_app. reflexivity.
-      + rewrite Hh, map_app. cbn [map snd]. rewrite <- (map_length snd acc) at 1.
-        rewrite <- heap_app_end. rewrite map_length. rewrite map_length. reflexivity.
+      + rewrite heap_app_end, Hh, map_app. reflexivity.
       + rewrite map_app, app_length. cbn [map List.length]. rewrite Nat.add_1_r, seq_S.
         rewrite combine_app by (rewrite map_length, seq_length; reflexivity).
         cbn [combine Nat.add]. rewrite Hh, !map_length. reflexivity.
@@ -240,7 +236,8 @@ Section Sound.
     induction P as [|q r IH]; intros heap Hnd Hlen; destruct heap as [|h t]; cbn in Hlen; try discriminate; [reflexivity|].
     inversion Hnd as [|? ? Hnot Hnd']; subst. cbn [map]. f_equal.
     - unfold idx_def. cbn [find_idx]. rewrite v3_eqb_refl. reflexivity.
-    - rewrite <- (IH t Hnd') at 2 by lia. apply map_ext_in. intros p Hp.
+    - transitivity (map (fun p => nth (idx_def p r) t []) r); [|apply IH; [exact Hnd' | lia]].
+      apply map_ext_in. intros p Hp.
       unfold idx_def. cbn [find_idx].
       assert (E : v3_eqb p q = false) by (apply v3_eqb_neq; intros ->; contradiction).
       rewrite E. destruct (find_idx p r) as [i|] eqn:Ei; cbn [option_map]; [reflexivity|].
@@ -255,13 +252,13 @@ Section Sound.
     - intros g Hg. exact Hg.
     - apply inv_nil.
     - constructor; reflexivity.
-    - cbn [app] in HI. fold im in *.
-      set (acc := fold_left (fun acc g => insert (im g) g acc) G []) in *.
+    - cbn [app] in HI. unfold im in Hp, Hh, Hd, HI.
+      set (acc := fold_left (fun acc g => insert (img D g off x) g acc) G []) in *.
       set (s := fold_left (eps_step D off x) G (St [] [] [])) in *.
       rewrite Hp, map_length. f_equal. f_equal.
       rewrite Hd, Hp, Hh.
-      rewrite <- (lists_by_index (map fst acc) (map snd acc)) at 2;
-        [| apply (inv_nodup D off x G acc HI) | rewrite !map_length; reflexivity].
+      transitivity (map (fun p => nth (idx_def p (map fst acc)) (map snd acc) []) (map fst acc));
+        [| apply lists_by_index; [apply (inv_nodup D off x G acc HI) | rewrite !map_length; reflexivity]].
       apply map_ext_in. intros p Hp'. f_equal. unfold lookup_def, idx_def.
       rewrite (lookup_combine D p (map fst acc) 0).
       + destruct (find_idx p (map fst acc)); reflexivity.
